@@ -11,6 +11,13 @@ Instants == <<"2021-03-14T06:30:00.000000000Z", "2021-03-14T07:30:00.000000000Z"
               "2021-03-28T01:30:00.000000000Z", "2021-10-31T00:30:00.000000000Z", "2021-07-01T12:00:00.000000000Z", "1970-01-01T00:00:00.000000000Z",
               "2038-01-19T03:14:08.000000000Z", "2000-02-29T23:59:59.000000000Z">>
 TzArgs == <<"UTC", "Europe/London", "Asia/Kolkata", "America/New_York">>
+\* wall-clock readings <<y, mo, d, h, mi, s>> that do not exist (spring-forward gap) or exist twice (overlap) in one of the configured
+\* zones, plus ordinary ones; written into log lines together with an explicit offset, which pins the instant whatever the zone
+WallClocks == << <<2021, 3, 14, 2, 30, 0>>, <<2021, 11, 7, 1, 30, 0>>, <<2021, 3, 28, 1, 30, 0>>, <<2021, 10, 31, 1, 30, 0>>, <<2021, 9, 26, 3, 0, 0>>,
+                 <<2021, 4, 4, 3, 0, 0>>, <<2024, 3, 10, 2, 15, 0>>, <<2024, 3, 31, 1, 59, 59>>, <<2021, 7, 1, 12, 0, 0>>, <<2000, 10, 10, 13, 55, 36>> >>
+TextOffsets == <<"+0000", "-0700", "+0100", "+0530", "-0500", "+1245">>
+ASSUME PrintT(<<"WALLCLOCKS", ToJson(WallClocks)>>)
+ASSUME PrintT(<<"TEXTOFFSETS", ToJson(TextOffsets)>>)
 ASSUME PrintT(<<"ZONES", ToJson(Zones)>>)
 ASSUME PrintT(<<"FORMATS", ToJson(Formats)>>)
 ASSUME PrintT(<<"INSTANTS", ToJson(Instants)>>)
